@@ -90,3 +90,13 @@ Definition cb_canon_head (h : head) : head :=
   | HInt _ z => if (z <? 0)%Z then HInt KI64 z else HInt KU64 z
   | _ => h
   end.
+
+(** Headers the layout writes faithfully: integers within the int64 / uint64
+    range of their kind, binary64 bit patterns, lengths below 2^63. *)
+Definition cb_wf_head (h : head) : bool :=
+  match h with
+  | HNull | HBool _ => true
+  | HInt k z => int_in_range k z
+  | HFloat f => f <? 2 ^ 64
+  | HStr n | HBin n | HArr n | HMap n => n <? 2 ^ 63
+  end.
